@@ -232,7 +232,7 @@ package provider
 //@             (redirectBinding(r) && spLookups == old(spLookups) + 1 && spOK && signingRequired(p) && formValue(r, "Signature") == "") ||
 //@             (redirectBinding(r) && formValue(r, "Signature") != "" && formValue(r, "SigAlg") == "") ||
 //@             (redirectBinding(r) && decCalls == old(decCalls) + 1 && decOK && decSigValue()) ||
-//@             (acsCalls == old(acsCalls) + 1 && (acsUrl == "" || (acsBinding != PostBinding && acsBinding != RedirectBinding))) ||
+//@             (acsCalls == old(acsCalls) + 1 && spOK && acsBase == base(spAcs()) && acsLen == len(spAcs()) && (acsUrl == "" || (acsBinding != PostBinding && acsBinding != RedirectBinding))) ||
 //@             (rcCalls == old(rcCalls) + 1 && !rcOK) || (persistCount == old(persistCount) + 1 && persistFailed)
 //@ func (*provider.IdentityProvider).ssoHandleFunc
 //@   inline
